@@ -173,6 +173,20 @@ def crosscheck(c, r):
                  {"kind": "extraction-crosscheck", "coq_output": out[-1500:]}, found_input=False)
 
 
+# ---------------------------------------------------------------- fixed regression histories
+# (container, code, eq, ops, nontrivial): the witness of the repaired Len defect (fix ace65f0: two colliding
+# keys gave Len 1) and the three positional Delete cases followed by a recycled re-insert, on a constant hash
+REGRESSION = [
+    ("hash", "m1", "x", ["p:1:0:-1", "p:2:0:-1"], True),
+    ("hash", "m1", "x", ["p:1:10:-1", "p:2:20:-1", "p:3:30:-1", "d:1", "p:4:40:0", "g:2", "g:1"], True),
+    ("hash", "m1", "x", ["p:1:10:-1", "p:2:20:-1", "p:3:30:-1", "d:2", "p:2:21:0", "g:3", "d:1", "d:3", "d:2"], True),
+    ("hash", "m1", "x", ["p:1:10:-1", "p:2:20:-1", "p:3:30:-1", "d:3", "p:5:50:0", "d:5", "d:2", "d:1", "p:1:11:1"], True),
+    ("hash", "m2", "h", ["p:2:1:-1", "p:3:5:-1", "g:2", "p:6:7:-1", "d:3", "g:2", "p:7:9:0"], True),
+    ("lhm", "m1", "x", ["p:3:30:-1", "p:1:10:-1", "p:2:20:-1", "p:1:11:-1", "d:3", "p:3:31:0", "d:1", "d:2", "d:3"], True),
+    ("mhm", "m1", "x", ["P:1:1.2:-1", "P:2::-1", "P:1:3:-1", "g:1", "g:2", "d:1", "P:1:4:0", "g:1"], True),
+]
+
+
 # ---------------------------------------------------------------- main
 def main(tier):
     c = Check("C03", tier)
@@ -183,6 +197,8 @@ def main(tier):
         c.report("build", "harness does not build against the repository", {"kind": "build", "log": log[-3000:]},
                  found_input=False)
         finish(c)
+    g, _ = decor.run_batch(c, binary, REGRESSION, "C03")
+    c.cov["regression_histories"] = {"histories": len(REGRESSION), "agree": g}
     r = random.Random(c.seed)
     n = 500 if tier == "quick" else 30000
     stats = decor.new_stats()
@@ -196,6 +212,10 @@ def main(tier):
         g, _ = decor.run_batch(c, binary, hs, "C03")
         good += g
         left -= m
+    if tier == "thorough":      # long histories: chains of a dozen nodes, pools of several recycled nodes
+        hs = decor.gen_histories(r, ["hash"] * 3 + ["lhm", "mhm"], 2000, 300, stats)
+        g, _ = decor.run_batch(c, binary, hs, "C03")
+        c.cov["long_histories"] = {"histories": len(hs), "ops_each": "<=300", "agree": g}
     c.cov["hash"] = {"histories": n, "agree": good, "generator": stats}
     for h in first[:3]:
         c.sample(decor.case_line(h)[:300])
